@@ -136,6 +136,25 @@ fn proc_case(n: usize, stream: &[u8], sizes: &[usize]) -> ProcOut {
         .unwrap_or_else(|| panic!("N={n} not instantiated"))
 }
 
+/// handlers and output of the fitting messages around an over-long one: each on its own through `run`
+fn over_expect(pre: &[u8], post: &[u8]) -> (Vec<Vec<u8>>, Vec<u8>) {
+    let mut calls = vec![];
+    let mut outb = vec![];
+    for m in [pre, post] {
+        if m.is_empty() {
+            continue;
+        }
+        let mut i = Main;
+        let mut w = RecW::unbounded();
+        run_on(&mut i, m, &mut w, Pattern::NONE);
+        log::with(|l| {
+            calls.extend(l.ev.iter().filter(|e| e.k == K::Enter).map(|e| l.data(e).to_vec()));
+            outb.extend_from_slice(&l.concat(K::WBytes));
+        });
+    }
+    (calls, outb)
+}
+
 fn judge_proc(o: &ProcOut) -> Option<(&'static str, String)> {
     match &o.end {
         End::Panicked(msg) => return Some(("panic", msg.clone())),
@@ -276,7 +295,10 @@ fn replay(path: &str) -> ! {
             let o = proc_case(n, &s, &sizes);
             let (calls, outb) = log::with(|l| (l.ev.iter().filter(|e| e.k == K::Enter).map(|e| l.data(e).to_vec()).collect::<Vec<_>>(), l.concat(K::TWrite)));
             println!("round {round}: process::<{n}>(\"{}\") sizes {:?} -> {:?}; handlers {:?}, written \"{}\"", show(&s), sizes, o.result, calls.iter().map(|c| show(c)).collect::<Vec<_>>(), show(&outb));
-            bad[round] = calls != vec![b"B?()".to_vec()] || outb != b"7\n";
+            let pre = unhex(w["pre"].as_str().unwrap_or(""));
+            let post = unhex(w["post"].as_str().unwrap_or("423f0a"));
+            let (exp_calls, exp_out) = over_expect(&pre, &post);
+            bad[round] = calls != exp_calls || outb != exp_out;
         } else if w["engine"] == "run-lexi" {
             let x = unhex(w["input"].as_str().unwrap());
             let mut m = mc::ifaces::Lexi;
@@ -670,30 +692,42 @@ fn main() {
             b"A:B;K #2270123456789abcdef\n:E\nA:B\nxyz;:E\n",
             b"A:N 5,'\n\n\n\n\n\n\n\nE\n'\n",
         ];
+        // fitting messages in front of and behind the over-long one (also with payload newlines):
+        // they are executed exactly as on their own
+        let pres: &[&[u8]] = &[b"", b"A:B\n", b"A:S 'p\nq'\n"];
+        let posts: &[&[u8]] = &[b"B?\n", b"A:S 'p\nq';:B?\n", b"A:K #13a\nb\n"];
         for m in over {
-            let mut stream = m.to_vec();
-            stream.extend_from_slice(b"B?\n");
-            for &n in runx::N_ALL.iter().filter(|&&n| n >= 3 && n < m.len()) {
-                let mut chunkings: Vec<Vec<usize>> = vec![env::regular(stream.len(), 1), env::regular(stream.len(), n), vec![stream.len()]];
-                env::cuts_up_to(stream.len(), 1, |c| chunkings.push(c.to_vec()));
-                for sizes in chunkings {
-                    let o = proc_case(n, &stream, &sizes);
-                    over_execs += 1;
-                    if o.end != End::Returned {
-                        continue;
-                    }
-                    let (calls, outb) = log::with(|l| (l.ev.iter().filter(|e| e.k == K::Enter).map(|e| l.data(e).to_vec()).collect::<Vec<_>>(), l.concat(K::TWrite)));
-                    if calls != vec![b"B?()".to_vec()] || outb != b"7\n" {
-                        let feat = vec![("engine", "process".to_string()), ("kind", "part-of-an-oversized-message-is-executed".to_string()), ("detail", String::new())];
-                        out.groups.add("crash-freedom", &feat, (stream.len() * 1000 + n, &stream), || {
-                            (
-                                json!({"engine": "process-oversize", "n": n, "stream": hex(&stream), "sizes": sizes}),
-                                format!(
-                                    "process::<{n}>(\"{}\") read sizes {:?}: the first message is longer than the buffer and can only be discarded, but handlers {:?} ran and \"{}\" was written (expected: only B?() of the second message, output \"7\\n\")",
-                                    show(&stream), sizes, calls.iter().map(|c| show(c)).collect::<Vec<_>>(), show(&outb)
-                                ),
-                            )
-                        });
+            for pre in pres {
+                for post in posts {
+                    let mut stream = pre.to_vec();
+                    stream.extend_from_slice(m);
+                    stream.extend_from_slice(post);
+                    let (exp_calls, exp_out) = over_expect(pre, post);
+                    let least = pre.len().max(post.len()).max(3);
+                    for &n in runx::N_ALL.iter().filter(|&&n| n >= least && n < m.len()) {
+                        let mut chunkings: Vec<Vec<usize>> = vec![env::regular(stream.len(), 1), env::regular(stream.len(), n), vec![stream.len()]];
+                        env::cuts_up_to(stream.len(), 1, |c| chunkings.push(c.to_vec()));
+                        for sizes in chunkings {
+                            let o = proc_case(n, &stream, &sizes);
+                            over_execs += 1;
+                            if o.end != End::Returned {
+                                continue;
+                            }
+                            let (calls, outb) = log::with(|l| (l.ev.iter().filter(|e| e.k == K::Enter).map(|e| l.data(e).to_vec()).collect::<Vec<_>>(), l.concat(K::TWrite)));
+                            if calls != exp_calls || outb != exp_out {
+                                let feat = vec![("engine", "process".to_string()), ("kind", "part-of-an-oversized-message-is-executed".to_string()), ("detail", String::new())];
+                                out.groups.add("crash-freedom", &feat, (stream.len() * 1000 + n, &stream), || {
+                                    (
+                                        json!({"engine": "process-oversize", "n": n, "stream": hex(&stream), "sizes": sizes, "pre": hex(pre), "post": hex(post)}),
+                                        format!(
+                                            "process::<{n}>(\"{}\") read sizes {:?}: the message \"{}\" is longer than the buffer and can only be discarded, but handlers {:?} ran and \"{}\" was written (expected: handlers {:?} of the messages around it, output \"{}\")",
+                                            show(&stream), sizes, show(m), calls.iter().map(|c| show(c)).collect::<Vec<_>>(), show(&outb),
+                                            exp_calls.iter().map(|c| show(c)).collect::<Vec<_>>(), show(&exp_out)
+                                        ),
+                                    )
+                                });
+                            }
+                        }
                     }
                 }
             }
@@ -727,7 +761,7 @@ fn main() {
             "lex_run_other_writers": {"max_tokens": lex2_len, "writers": writers2.iter().map(|w| w.json()).collect::<Vec<_>>(), "executions": lex2_execs},
             "lex_run_second_alphabet": {"alphabet": lex::sigma_alt_json(), "max_tokens": lex3_len, "writers": lw3.iter().map(|w| w.json()).collect::<Vec<_>>(), "strings": lex3_cases, "executions": lex3_execs},
             "lexeme_strings_on_lexi": {"alphabet": lex::sigma_lexeme_json(), "max_tokens": lexeme_len, "executions": lexeme_execs},
-            "oversized_messages": {"messages": 9, "with_newlines_inside_a_string_or_block": 4, "N": "every instantiated N below the message length", "oracle": "nothing of the oversized message is executed, the following message is", "executions": over_execs},
+            "oversized_messages": {"messages": 9, "with_newlines_inside_a_string_or_block": 4, "N": "every instantiated N below the message length", "around": "3 fitting messages in front x 3 behind (also with payload newlines)", "oracle": "nothing of the oversized message is executed, the messages around it are executed as on their own", "executions": over_execs},
             "long_numeric_fields": {"digits": "1..=40 in mantissa, fraction, exponent, radix literals, block length", "parameter_types": 15, "executions": long_execs},
             "many_parameters": {"headers": 9, "literal_kinds": 6, "parameters": "0..=16", "executions": many_execs},
             "capacity_sweep": {"messages": msgs.len(), "capacities": "recorder 0..=64, heapless {0,1,2,8,9,16,41,64}", "executions": cap_execs},
